@@ -9,7 +9,7 @@ Extraction "model.ml" lparse parse parse_all sh_id sh_rev of_list nsvalue
   read_rule read_rulelist read_elements is_rulename
   reg0 rget rnew create load_grammar import_rule set_flag get_flag set_excl rules_of grammar_of grammar_list
   define_rule define_rules normalise ensure_crlf
-  b1_classes r_rfc
+  b1_classes r_rfc r_rfc5234
   lib_create lib_load_grammar v_rulelist v_rule
   lparse_p parse_p parse_all_p run_traced run_cached upd ckey_eqb
   dispatch_key node_eqb visit node_name
